@@ -823,10 +823,11 @@ def check_custom_fragments(ctx, ser):
     for (path, trait, name), want in CUSTOM_FRAGMENTS.items():
         src = ctx.src[MSGS] if path == MSGS else ser
         hdr = r'impl %s for %s\s*\{' % (re.escape(trait), re.escape(name)) if trait else r'impl %s\s*\{' % re.escape(name)
-        body, _ = impl_body(src, hdr, 'impl %s for %s' % (trait, name))
+        what = 'impl %s for %s' % (trait, name) if trait else 'impl %s' % name
+        body, _ = impl_body(src, hdr, what)
         got = ' '.join(body.split())
         if got != want:
-            raise TranslateError('impl %s for %s (%s) changed (Model/Codec.lean / Model/MsgCustom.lean mirror the old text): now `%s`' % (trait, name, path, got[:300]))
+            raise TranslateError('%s (%s) changed (Model/Codec.lean / Model/MsgCustom.lean mirror the old text): now `%s`' % (what, path, got[:300]))
 
 
 def custom_codecs(ctx):
